@@ -323,4 +323,28 @@ MUTANTS += [
     dict(prop='C18', name='fattree-any-simple-path', edits=[(FT, "sample(list(nx.all_shortest_paths(self.topo, src, dst)), 1)[0]", "sample(list(nx.all_simple_paths(self.topo, src, dst, cutoff=6)), 1)[0]")]),
     dict(prop='C18', name='fairswitch-egress-port-wired-to-wrong-scheduler', edits=[(SWITCH, "            egress_port.out = scheduler\n", "            egress_port.out = scheduler if port < 2 else self.ports[0]\n")]),
 ]
+
+TCPG = 'onl/packet/tcp_generator.py'
+TCPS = 'onl/packet/tcp_sink.py'
+MUTANTS += [
+    # ---- C16
+    dict(prop='C16', name='sink-acks-end-of-last-range', edits=[(TCPS, "            self.next_seq_expected = self.recv_buffer[0][1]\n        else:\n            self.next_seq_expected = 0", "            self.next_seq_expected = self.recv_buffer[-1][1]\n        else:\n            self.next_seq_expected = 0")]),
+    dict(prop='C16', name='sink-acks-first-range-even-without-byte-0', edits=[(TCPS, "        if self.recv_buffer[0][0] == 0:", "        if self.recv_buffer[0][0] >= 0:")]),
+    dict(prop='C16', name='timer-not-restarted-after-retransmission', edits=[(TCPG, "        self.rto *= 2\n        self.timers[packet_id].restart(self.rto)", "        self.rto *= 2\n        if self.rto < 16:\n            self.timers[packet_id].restart(self.rto)")]),
+    dict(prop='C16', name='stale-ack-accepted-again', edits=[(TCPG, "        if ackno < self.last_ack:", "        if ackno < self.last_ack - 1024:")]),
+    dict(prop='C16', name='cumulative-ack-stops-one-timer-too-many', edits=[(TCPG, "            for seqno in [s for s in self.timers if s < ackno]:", "            for seqno in [s for s in self.timers if s <= ackno]:")]),
+    dict(prop='C16', name='merge-ranges-off-by-one', edits=[(TCPS, "            if merge_stats and start <= merge_stats[-1][1]:", "            if merge_stats and start < merge_stats[-1][1]:")]),
+    dict(prop='C16', name='timer-of-every-eighth-segment-never-stopped', edits=[(TCPG, "            for seqno in [s for s in self.timers if s < ackno]:", "            for seqno in [s for s in self.timers if s < ackno and s % 4096 != 3584]:")]),
+    # ---- C17
+    dict(prop='C17', name='slow-start-strict-less', edits=[(TCPG, "class TCPReno(CongestionControl):\n    def ack_received(self, rtt: float = 0, current_time: float = 0):\n        if self.cwnd <= self.ssthresh:", "class TCPReno(CongestionControl):\n    def ack_received(self, rtt: float = 0, current_time: float = 0):\n        if self.cwnd < self.ssthresh:")]),
+    dict(prop='C17', name='halving-without-2mss-floor', edits=[(TCPG, "        self.ssthresh = max(2 * self.mss, self.cwnd / 2)", "        self.ssthresh = self.cwnd / 2")]),
+    dict(prop='C17', name='inflation-plus-2mss', edits=[(TCPG, "        self.cwnd = self.ssthresh + 3 * self.mss", "        self.cwnd = self.ssthresh + 2 * self.mss")]),
+    dict(prop='C17', name='estimator-gains-swapped', edits=[(TCPG, "            self.rtt_estimate += 0.125 * sample_err\n            self.est_deviation += 0.25 * (abs(sample_err) - self.est_deviation)", "            self.rtt_estimate += 0.25 * sample_err\n            self.est_deviation += 0.125 * (abs(sample_err) - self.est_deviation)")]),
+    dict(prop='C17', name='rto-not-doubled', edits=[(TCPG, "        self.rto *= 2\n", "        self.rto *= 1.5\n")]),
+    dict(prop='C17', name='send-guard-ignores-window-for-last-byte', edits=[(TCPG, "            if self.next_seq + self.mss <= min(\n                self.send_buffer, self.last_ack + self.congestion_control.cwnd\n            ):", "            if self.next_seq + self.mss <= min(\n                self.send_buffer, self.last_ack + self.congestion_control.cwnd + self.mss - 1\n            ):")]),
+    dict(prop='C17', name='deflation-after-any-dupack-again', edits=[(TCPG, "            if self.dupack >= 3:\n                self.congestion_control.dupack_over()", "            if self.dupack >= 2:\n                self.congestion_control.dupack_over()")]),
+    dict(prop='C17', name='timeout-halves-instead-of-one-mss', edits=[(TCPG, "        \"\"\"Actions to be taken when a timer expired.\"\"\"\n        self.cwnd = self.mss\n\n    def dupack_over", "        \"\"\"Actions to be taken when a timer expired.\"\"\"\n        self.cwnd = max(self.mss, self.cwnd / 2)\n\n    def dupack_over")]),
+    dict(prop='C17', name='cubic-shrinks-in-avoidance', edits=[(TCPG, "            if self.cwnd_cnt > self.cnt:\n                self.cwnd += self.mss", "            if self.cwnd_cnt > self.cnt:\n                self.cwnd += self.mss * 2")]),
+    dict(prop='C17', name='fourth-dupack-no-inflation', edits=[(TCPG, "        elif self.dupack > 3:\n            self.congestion_control.more_dupacks_received()", "        elif self.dupack > 4:\n            self.congestion_control.more_dupacks_received()")]),
+]
 MUTANTS.sort(key=lambda m: (m['prop'], m['name']))
